@@ -259,9 +259,11 @@ def C02():
     for n in _cases_units():
         total += r_reg.run_jobs(chk, F.load(n), "R-REG.kernel", _kernel_jobs(("eval",)))
         chk.units.append(n)
-    # orders 4..6 (interval selection, end points, history clauses)
+    # orders 4..6 (interval selection, end points, history clauses) and the value for orders 5, 6
     total += r_reg.run_jobs(chk, F.load(HIGH_UNIT), "R-REG.eval", _high_jobs("eval"))
     chk.units.append(HIGH_UNIT)
+    total += r_reg.run_jobs(chk, F.load(HIGH_CASES), "R-REG.kernel", _high_case_jobs("evalk"))
+    chk.units.append(HIGH_CASES)
     chk.note("high_orders", HIGH_NOTE)
     chk.assume(KERNEL_ASSUME)
     chk.note("regions_evaluated", total)
@@ -298,6 +300,36 @@ def _high_jobs(kind, thorough=None):
     if kind in ("lincomb", "all"):
         jobs += [("bsv.r_reg_spl", "lincomb_suite", dict(nmax=3, order=5, ns=[3], fixed=True))]
     return jobs
+
+
+HIGH_CASES = "cases_high"
+_SP14 = (1, 2, 3, 5, 7, 11, 13, 17, 19, 23, 29, 31, 37, 41)
+
+
+def _high_case_jobs(kind):
+    """Named operator / form cases for spline orders 5 and 6 (unit cases_high).  kind: evalk | pos | opsuite[:primitive] |
+    opsk | lfk | lfs | bfk | bfs."""
+    pairs = ((5, 5), (6, 2), (2, 6), (4, 5))
+    K = "bsv.r_reg_ops"
+    if kind == "evalk":
+        return [(K, "kernel_suite", dict(ns=[2], parts=("eval",), orders=(o,), spacings=_SP14)) for o in (5, 6)]
+    if kind == "lfk":
+        return [(K, "kernel_suite", dict(ns=[2], parts=("lf",), orders=(o,), spacings=_SP14)) for o in (5, 6)]
+    if kind == "bfk":
+        return [(K, "kernel_suite", dict(ns=[2], parts=("bf",), order_pairs=(pr,), spacings=_SP14)) for pr in pairs]
+    if kind == "opsk":
+        return [(K, "kernel_suite", dict(ns=[2], parts=("ops",), orders=(o,))) for o in (5, 6)]
+    if kind == "pos":
+        return [(K, "kernel_suite", dict(ns=[2], parts=("pos",), orders=(o,))) for o in (5, 6)]
+    if kind.startswith("opsuite"):
+        from . import r_reg_ops
+        kw = dict(cases=sorted(r_reg_ops.PRIMITIVE)) if kind.endswith(":primitive") else {}
+        return [(K, "operator_suite", dict(kw, nmax=3, orders=(o,), ns=[3], fixed=False)) for o in (5, 6)]
+    if kind == "lfs":
+        return [(K, "linear_suite", dict(nmax=3, orders=(o,), ns=[3], fixed=False)) for o in (5, 6)]
+    if kind == "bfs":
+        return [(K, "bilinear_suite", dict(nmax=3, order_pairs=(pr,), ns=[3], fixed=False)) for pr in pairs[:3]]
+    raise ValueError(kind)
 
 
 def _kernel_jobs(parts, **kw):
@@ -442,6 +474,11 @@ def C04():
         # the value of x^m a: exact re-expansion weights C(m,k) midpoint^(m-k) on a 4 x 4 tensor of offsets and widths
         total += r_reg.run_jobs(chk, u, "R-REG.kernel", _kernel_jobs(("pos",)))
         total += r_reg.run_jobs(chk, u, "R-REG.const", [("bsv.r_reg_ops", "constant_table_suite", dict(nmax=9))])
+    uh = F.load(HIGH_CASES)
+    chk.units.append(HIGH_CASES)
+    total += r_reg.run_jobs(chk, uh, "R-REG.op", _high_case_jobs("opsuite:primitive"))
+    total += r_reg.run_jobs(chk, uh, "R-REG.kernel", _high_case_jobs("pos"))
+    chk.note("high_orders", HIGH_NOTE)
     chk.note("regions_evaluated", total)
     chk.note("grid_size_bound", nmax)
     chk.exhaustive = True
@@ -476,6 +513,11 @@ def C05():
                                                                                                  orders=(A,)))
                                                          for n_ in (2, 3) for A in (0, 1, 2, 3)])
         total += r_reg.run_jobs(chk, u, "R-REG.const", [("bsv.r_reg_ops", "constant_table_suite", dict(nmax=9))])
+    uh = F.load(HIGH_CASES)
+    chk.units.append(HIGH_CASES)
+    total += r_reg.run_jobs(chk, uh, "R-REG.op", _high_case_jobs("opsuite"))
+    total += r_reg.run_jobs(chk, uh, "R-REG.kernel", _high_case_jobs("opsk"))
+    chk.note("high_orders", HIGH_NOTE)
     chk.note("regions_evaluated", total)
     chk.note("grid_size_bound", nmax)
     chk.exhaustive = True
@@ -521,6 +563,11 @@ def C06():
                                                                                                  orders=(A,)))
                                                          for n_ in (2, 3) for A in (0, 1, 2, 3)])
         total += r_reg.run_jobs(chk, u, "R-REG.const", [("bsv.r_reg_ops", "constant_table_suite", dict(nmax=9))])
+    uh = F.load(HIGH_CASES)
+    chk.units.append(HIGH_CASES)
+    total += r_reg.run_jobs(chk, uh, "R-REG.bf", _high_case_jobs("bfs"))
+    total += r_reg.run_jobs(chk, uh, "R-REG.kernel", _high_case_jobs("bfk"))
+    chk.note("high_orders", HIGH_NOTE)
     chk.note("regions_evaluated", total)
     chk.exhaustive = True
     chk.floor("R-REG.bf", chk.rules["R-REG.bf"]["instances"], 6, "bilinear-form cases")
@@ -558,6 +605,11 @@ def C07():
                                                                                                  orders=(A,)))
                                                          for n_ in (2, 3) for A in (0, 1, 2, 3)])
         total += r_reg.run_jobs(chk, u, "R-REG.const", [("bsv.r_reg_ops", "constant_table_suite", dict(nmax=9))])
+    uh = F.load(HIGH_CASES)
+    chk.units.append(HIGH_CASES)
+    total += r_reg.run_jobs(chk, uh, "R-REG.lf", _high_case_jobs("lfs"))
+    total += r_reg.run_jobs(chk, uh, "R-REG.kernel", _high_case_jobs("lfk"))
+    chk.note("high_orders", HIGH_NOTE)
     chk.note("regions_evaluated", total)
     chk.exhaustive = True
     chk.floor("R-REG.lf", chk.rules["R-REG.lf"]["instances"], 5, "linear-form cases")
@@ -720,6 +772,10 @@ def C09():
     total += r_reg.run_jobs(chk, F.load(HIGH_UNIT), "R-REG.ub", _high_jobs("all"), view=r_reg.ub_view)
     chk.units.append(HIGH_UNIT)
     chk.note("high_orders", HIGH_NOTE)
+    uh = F.load(HIGH_CASES)
+    chk.units.append(HIGH_CASES)
+    total += r_reg.run_jobs(chk, uh, "R-REG.ub", _high_case_jobs("opsuite") + _high_case_jobs("lfs") +
+                            _high_case_jobs("bfs"), view=r_reg.ub_view)
     for n in _cases_units():
         u = F.load(n)
         chk.units.append(n)
@@ -1003,6 +1059,14 @@ def C01():
                                 view=lambda st: {k: v for k, v in st.items() if "division" in k[2]})
         total += r_reg.run_jobs(chk, u, "R-REG.cdb", [("bsv.r_reg_val", "coxdeboor_suite", dict(maxlen=maxlen, ns=[L]))
                                                       for L in range(2, maxlen + 1)])
+    # orders 4, 5 (6 in the thorough tier): the same induction on the high-order unit - step k = 5, 6 (7) as a linear map,
+    # wiring against the reference recursion on the longest knot sequences
+    uh = F.load(HIGH_UNIT)
+    chk.units.append(HIGH_UNIT)
+    th = C.tier() == "thorough"
+    total += r_reg.run_jobs(chk, uh, "R-REG.cdb", [("bsv.r_reg_val", "coxdeboor_suite", dict(
+        maxlen=L, orders=((4, 5, 6) if th else (4, 5)), ns=[L], ks=((5, 6, 7) if th else (5, 6)))) for L in ((6, 7) if th else (6,))])
+    chk.note("high_orders", HIGH_NOTE)
     chk.note("regions_evaluated", total)
     chk.note("knot_sequence_length_bound", maxlen)
     chk.exhaustive = True
